@@ -86,6 +86,19 @@ func init() {
 	anchors["C14"] = []string{"rag.Exporter.exportJSONL", "rag.Exporter.exportJSON", "rag.Exporter.exportCSV", "rag.Exporter.collectCSVColumns", "rag.Exporter.chunkToCSVRow",
 		"rag.BatchExporter.Export", "rag.StreamExporter.WriteChunk", "rag.StreamExporter.Close", "rag.ChunkCollection.Filter", "rag.EmbeddingExporter.ExportForPinecone",
 		"rag.EmbeddingExporter.ExportForChroma", "rag.EmbeddingExporter.ExportForWeaviate", "rag.Exporter.ExportToFile"}
+	props["C19"] = propInfo{
+		level:     "exploration",
+		quickRuns: 4000, chunk: 50, thoroughS: 600, thoroughMax: 50000000,
+		rule: "run i draws a DOM of 3-120 content elements (headings, paragraphs, nested lists, tables with spans, pre/code, block quotes, scripts/styles, unclosed tags, entities) inside neutral wrappers, nav/aside/header/footer, ARIA roles, class/id names from and near the exclusion vocabulary and link-dense blocks; every text carries a unique token and a flag 'outside every candidate subtree'. It also draws an entry point (file, io.Reader fed in seeded chunks incl. (n, EOF) and (0, nil) deliveries, string, EPUB chapter), a query history of 2-16 (renderer, mode) queries with repeats on ONE reader, optionally a read error at byte b, optionally a map-order seed. Oracle: mode None = every token once in document order, no script/style/markup, entities decoded; each stricter mode's token sequence is a subsequence of the next weaker one; flagged texts present in all modes; every query of the history equals the same query on a fresh reader; all entry points agree with the string entry point; an injected read error is reported as an error. Non-trivial = more than one content text and more than one query; distinct = distinct (entry, page, history, fault).",
+		assume: []string{
+			"whether the library's exclusion heuristics agree with a reading of them on a particular class name is never judged: only relations between modes and texts outside every candidate subtree are",
+			"the DOM variety is workload sampling; the simulator contributes the query history on the caching reader, stream chunking / failure and map order",
+		},
+		simulated: []string{"query histories on the stateful, caching htmldoc.Reader", "the byte stream behind io.Reader (chunking, (n,EOF), (0,nil), injected error)", "map iteration order"},
+	}
+	anchors["C19"] = []string{"htmldoc.Reader.traverseNodeFiltered", "htmldoc.Reader.parseTable", "htmldoc.Reader.getElements", "htmldoc.exclusionChecker.shouldExclude",
+		"htmldoc.exclusionChecker.shouldExcludeExplicit", "htmldoc.exclusionChecker.shouldExcludeByPattern", "htmldoc.exclusionChecker.shouldExcludeByLinkDensity",
+		"htmldoc.OpenReader", "tabula.FromHTMLReader", "epubdoc.Reader.TextWithOptions", "htmldoc.Reader.TextWithOptions", "htmldoc.Reader.MarkdownWithOptions", "htmldoc.Reader.DocumentWithOptions"}
 	anchors["C03"] = []string{"contentstream.Parser.parseNext", "contentstream.Parser.parseOperator", "text.Extractor.RegisterFontsFromResources",
 		"rag.Exporter.collectCSVColumns", "layout.LineDetector.calculateAdaptiveTolerance", "tabula.Extractor.clone", "tabula.ExtractOptions.clone",
 		"core.Dict.String", "rag.flattenMetadata"}
